@@ -34,7 +34,7 @@ TRUSTED = [
 
 DRIVERS = {
     "ks": {"kind": "gotest", "pkg": "services/keepstore", "test": "TestVerifC02", "min_chunk": 4,
-           "timeout": 900},
+           "timeout": 3000},
 }
 
 INSTRUMENT = "/verif/build/instrument"
@@ -216,11 +216,11 @@ def generate(rng, tier):
         cases += _wb_enumeration(rng, ["big"])
         cases += [_random_history(rng, tier) for _ in range(70)]
     else:
-        for _ in range(4):
+        for _ in range(2):
             cases += _put_enumeration(rng, ["zero", "one", "small", "small", "mid", "big"])
-        for _ in range(4):
+        for _ in range(2):
             cases += _wb_enumeration(rng, ["mid", "big"])
-        cases += [_random_history(rng, tier) for _ in range(1200)]
+        cases += [_random_history(rng, tier) for _ in range(450)]
     return cases
 
 
